@@ -392,8 +392,108 @@ def r_assign(ctx, g):
                       "is_inclusive is not computed as `any child == Rule::range_op_inclusive`")
 
 
+OCC_CASES = [("occur_optional", "?", ("Optional", None, None)), ("occur_zero_or_more", "*", ("ZeroOrMore", None, None)),
+             ("occur_one_or_more", "+", ("OneOrMore", None, None)), ("occur_exact", "3*", ("Exact", 3, None)), ("occur_exact", "0*", ("Exact", 0, None)),
+             ("occur_range", "3*5", ("Exact", 3, 5)), ("occur_range", "*5", ("Exact", None, 5)), ("occur_range", "0*1", ("Exact", 0, 1)),
+             ("occur_range", "0x10*0b11", ("Exact", 16, 3)), ("occur_exact", "0x1f*", ("Exact", 31, None))]
+
+
+def r_occur(ctx, g):
+    import absint
+    from absint import Interp, Return, Unknown, OPAQUE
+    rid = "C03.occur"
+    ctx.rule(rid, "convert_occurrence maps each occurrence spelling of the grammar (?, *, +, n*, n*m, *m, with decimal, hex and binary bounds) to "
+                  "the Occur variant and the exact bounds written — the lower bound before `*`, the upper bound after it, neither swapped nor "
+                  "defaulted (abstract evaluation of the converter on grammar-shaped pairs; the integer-literal decoder parse_u64_lit is "
+                  "a trusted primitive here, decided by C07)", floor=10)
+    f = ctx.facts
+    B = "src/pest_bridge.rs"
+    kinds = g.children("occur")
+    free = {fi.name: fi for fi in f.fns(B) if fi.impl_self is None and not fi.in_test and fi.name in ("parse_uint_lit",)}
+    for fi in [x for x in f.fn_all(B, "convert_occurrence")]:
+        cfgk = ",".join(fi.cfg) or "any"
+        for rule, text, want in OCC_CASES:
+            key = "%s|%s" % (cfgk, text)
+            if rule not in kinds:
+                ctx.incomplete_msg(rid, "grammar rule occur cannot produce %s any more" % rule)
+                continue
+            inner = ("enum", "Pair", {"rule": rule, "text": text, "children": []})
+            pair = ("enum", "Pair", {"rule": "occur", "text": text, "children": [inner]})
+
+            def on_call(kind, name, node, args, recv):
+                if kind == "method" and isinstance(recv, tuple) and recv[:2] == ("enum", "Pair"):
+                    d = recv[2]
+                    if name == "as_rule":
+                        return ("enum", "Rule::" + d["rule"], [])
+                    if name == "into_inner":
+                        return ("list", d["children"])
+                    if name == "as_str":
+                        return ("str", d["text"])
+                    if name == "as_span":
+                        return OPAQUE
+                if kind == "fn" and name:
+                    b = name.split("::")[-1]
+                    if b in free:
+                        fn = free[b]
+                        names = [i["pat"]["n"] for i in fn.node["sig"]["inputs"] if "pat" in i and i["pat"]["k"] == "pid"]
+                        sub = Interp(env=dict(zip(names, args)), cfg=absint.default_cfg, on_call=on_call)
+                        try:
+                            return sub.block(fn.node["body"])
+                        except Return as r:
+                            return r.v
+                    if b in ("pest_span_to_ast_span", "pest_span_to_position"):
+                        return OPAQUE
+                    if b == "parse_u64_lit":
+                        # the integer-literal primitive (decided by C07.intwrap/C07.single): decimal, 0x and 0b spellings
+                        t = args[0][1] if isinstance(args[0], tuple) and args[0][:1] == ("str",) else None
+                        try:
+                            v = int(t, 16) if t[:2] in ("0x", "0X") else int(t[2:], 2) if t[:2] in ("0b", "0B") else int(t)
+                            v = int(t[2:], 16) if t[:2] in ("0x", "0X") else v
+                            return ("Some", v) if 0 <= v < 2**64 else ("None",)
+                        except Exception:
+                            return ("None",)
+                    if b in ("from_str_radix",):
+                        t = args[0][1] if isinstance(args[0], tuple) and args[0][:1] == ("str",) else None
+                        try:
+                            return ("Ok", int(t, args[1]))
+                        except Exception:
+                            return ("Err", OPAQUE)
+                    if b == "try_from" and args and isinstance(args[0], int):
+                        return ("Ok", args[0])
+                if kind == "method" and name == "parse" and isinstance(recv, tuple) and recv[:1] == ("str",):
+                    try:
+                        return ("Ok", int(recv[1]))
+                    except Exception:
+                        return ("Err", OPAQUE)
+                return NotImplemented
+            it = Interp(env={"pair": pair, "input": OPAQUE}, cfg=absint.default_cfg if "not(" not in cfgk else (lambda c, cf=absint.default_cfg: cf(c) if "ast-span" not in c else "not(" in c),
+                        on_call=on_call)
+            try:
+                try:
+                    res = it.block(fi.node["body"])
+                except Return as r:
+                    res = r.v
+            except Unknown as e:
+                ctx.incomplete_msg(rid, "%s: %s" % (key, e))
+                continue
+            got = None
+            if isinstance(res, tuple) and res[0] == "Ok":
+                oc = res[1]
+                if isinstance(oc, tuple) and oc[:1] == ("enum",) and isinstance(oc[2], dict):
+                    o = oc[2].get("occur")
+                    if isinstance(o, tuple) and o[:1] == ("enum",):
+                        v = o[1].split("::")[-1]
+                        fl = o[2] if isinstance(o[2], dict) else {}
+                        un = lambda x: None if x in (None, ("None",)) else (x[1] if isinstance(x, tuple) and x[0] == "Some" else x)
+                        got = (v, un(fl.get("lower")), un(fl.get("upper")))
+            ctx.site(rid, key, B, fi.line, {"spelling": text, "ast": repr(got)})
+            if got != want:
+                ctx.violation(rid, "%s|%s" % (cfgk, {"?": "optional", "*": "zero-or-more", "+": "one-or-more"}.get(text, "bounds " + text)), B, fi.line,
+                              "convert_occurrence turns `%s` into %r; the grammar derivation is %r" % (text, got if got else res, want))
+
+
 def run(ctx):
     g = pestg.G(ctx.facts.grammar())
     for name, fn in (("C03.prefix", r_prefix), ("C03.ctltable", r_ctltable), ("C03.juncture", r_juncture),
-                     ("C03.children", r_children), ("C03.order", r_order), ("C03.assign", r_assign)):
+                     ("C03.children", r_children), ("C03.order", r_order), ("C03.assign", r_assign), ("C03.occur", r_occur)):
         ctx.guarded(name, lambda c, fn=fn: fn(c, g))
